@@ -265,6 +265,26 @@ func solveAll(obls []*Obligation, qdir string, timeout time.Duration) {
 						ob.Result.Time += r2.Time
 					}
 				}
+				if ob.Result.Status == "unsat" && ob.BaseLen > 0 {
+					// The vacuity guard of a call asks whether the callee's assumed postconditions contradict what
+					// is known at the call site. If the site is already unreachable *before* they are assumed, the
+					// contract is not the cause: the statement is dead code in the function itself (e.g. a default
+					// branch after an exhaustive switch) and no assumption about the callee is exercised there.
+					base := *ob
+					base.ScriptLen = ob.BaseLen
+					rb := runQuery(qdir, ob.Name+".base", base.slicedQuery(), timeout/2, false, []string{"z3-new"})
+					if rb.Status != "unsat" && rb.Status != "sat" {
+						rg := runQuery(qdir, ob.Name+".base.ground", groundOnly(base.queryText()), timeout/2, false, []string{"z3-new"})
+						if rg.Status == "unsat" {
+							rb = rg
+						}
+					}
+					if rb.Status == "unsat" {
+						ob.Result.Status = "dead-code"
+						ob.Result.Time += rb.Time
+						ob.DeadCode = true
+					}
+				}
 				return
 			}
 			ob.Result = runQuery(qdir, ob.Name, q, timeout, false, nil)
@@ -556,6 +576,7 @@ func writeEvidence(o *options, res *checkResult, violations int) {
 		knownSet[k] = true
 	}
 	var samples []map[string]any
+	deadSites := []string{}
 	for _, ob := range res.obls {
 		if knownSet[ob] {
 			continue
@@ -563,6 +584,9 @@ func writeEvidence(o *options, res *checkResult, violations int) {
 		total++
 		if ob.Cover {
 			covers++
+		}
+		if ob.DeadCode {
+			deadSites = append(deadSites, ob.Name+" ("+relPos(ob.Pos)+")")
 		}
 		if oblOK(ob) {
 			discharged++
@@ -593,6 +617,7 @@ func writeEvidence(o *options, res *checkResult, violations int) {
 		"solver_time_s":             round3(solverTime),
 		"max_obligation_time_s":     round3(maxT),
 		"cover_checks":              covers,
+		"dead_code_call_sites":      deadSites,
 		"known_finding_obligations": knownN,
 		"sub_claims_not_covered":    meta.NotCovered,
 		"claim":                     meta.Claim,
